@@ -266,6 +266,24 @@ def decide(pid, cfg, tier, seed, args):
             undecided.append((q, errs))
             continue
         violations.append((f, errs))
+    # ---- a function whose woven proof no longer fits (pieces dropped or re-attached because their anchor, loop or closure
+    # changed) and that no longer verifies is UNDECIDED, not a violation: the rejection may be the proof's, not the code's
+    # (set VX_LENIENT=1 to report such rejections as violations, as bin/seedreport does to show both readings)
+    def misfit_notes(f):
+        if not (isinstance(f, dict) and f.get('item')):
+            return []
+        fl = f['item']['file']
+        w = "%s :: %s" % (fl[4:] if fl.startswith('src/') else fl, f['item']['sel'])
+        return [n for n in meta.get('reanchored', []) if n.startswith(w + ':')]
+    if not os.environ.get('VX_LENIENT'):
+        kept = []
+        for f, errs in violations:
+            notes = misfit_notes(f)
+            if notes:
+                undecided.append((f['qual'], [{"text": "the woven proof no longer fits this function (%s) and the function is not verified any more: undecided, not a violation" % "; ".join(notes)[:900], "msg": "misfit"}]))
+            else:
+                kept.append((f, errs))
+        violations = kept
     # ---- extra (non-Verus) obligations: kani leaf harnesses, syntactic call-site obligations
     extra_obl = extra.run(pid, cfg, args.repo, work, tier)
     for o in extra_obl:
